@@ -539,7 +539,7 @@ func checkC19(c *Check) {
 	}
 
 	// ---- R3 hand-out guard
-	c.Rule("R3", "Get hands a pooled connection out only after Usable() returned true and the lifetime test (evaluated in a fresh and a stale model world) found it fresh; stale buckets are evicted, fresh ones kept", 4)
+	c.Rule("R3", "Get hands a pooled connection out only after Usable() returned true and the lifetime test (evaluated in a fresh and a stale model world) found it fresh; stale buckets are evicted, fresh ones kept", 5)
 	if r := c.need("R3", poolRel, "P", "Get"); r != nil {
 		handOut := func(pt Pt) bool {
 			_, ret := r.F.Exit(pt)
@@ -852,6 +852,64 @@ func checkC19(c *Check) {
 							_, f2 := r.F.Reach(Query{From: []Pt{u}, Target: isPt([]Pt{pt}), Avoid: isPt(defs)})
 							if f1 && f2 {
 								msg = "a slot copied from the table in an earlier critical section is written back after the mutex was released: if the bucket was evicted or the pool shut down in between, a closed channel is re-inserted (send on / close of closed channel, assignment to nil map)"
+							}
+						}
+					}
+				}
+				// a freshly made slot replaces nothing: the insert is reachable only on the miss edge of a lookup of the same
+				// key (an existing bucket that is overwritten is never closed or drained – its connections leak)
+				if msg == "" {
+					fresh := false
+					if _, isLit := ast.Unparen(as.Rhs[i]).(*ast.CompositeLit); isLit {
+						fresh = true
+					} else if v != nil {
+						if defs, okD := r.ReachingDefs(v, pt, nil); okD {
+							for _, d := range defs {
+								if _, isLit := ast.Unparen(d).(*ast.CompositeLit); isLit {
+									fresh = true
+								}
+							}
+						}
+					}
+					if fresh {
+						var okVars []types.Object
+						for _, q := range r.F.Points() {
+							if a2, ok := q.Node().(*ast.AssignStmt); ok && len(a2.Lhs) == 2 && len(a2.Rhs) == 1 {
+								if ix2, ok := ast.Unparen(a2.Rhs[0]).(*ast.IndexExpr); ok && fieldOf(info, ix2.X) == keysF && sameExpr(ix2.Index, ix.Index) {
+									if o := objOf(info, a2.Lhs[1]); o != nil {
+										okVars = append(okVars, o)
+									}
+								}
+							}
+						}
+						if len(okVars) == 0 {
+							msg = "a new bucket is stored without looking whether the key already has one (the old bucket's connections are never closed)"
+						} else {
+							w := r.F.World(func(atom ast.Expr) (bool, bool) {
+								for _, o := range okVars {
+									if objOf(info, atom) == o {
+										return true, true // the key is present
+									}
+								}
+								return false, false
+							})
+							// only the definitions that are fresh literals matter: is the store of a fresh slot reachable in that world?
+							if path, f := r.F.Reach(Query{From: r.Entry(), Inclusive: true, Target: isPt([]Pt{pt}), AvoidEdge: w}); f {
+								// the stored value on that path may be the looked-up slot itself (write-back in the same section): fine
+								stale := true
+								if v != nil {
+									if defs, okD := r.ReachingDefs(v, pt, w); okD {
+										stale = false
+										for _, d := range defs {
+											if _, isLit := ast.Unparen(d).(*ast.CompositeLit); isLit {
+												stale = true
+											}
+										}
+									}
+								}
+								if stale {
+									msg = "a new bucket replaces an existing one for the same key (the connections queued in the old bucket are never handed out or closed): " + r.F.Describe(path)
+								}
 							}
 						}
 					}
